@@ -326,7 +326,7 @@ def build(case, arrays=None):
 
     if arrays is None:
         arrays = make_arrays(case)
-    fl = lambda a: jnp.asarray([[float(x) for x in r] for r in a], dtype=jnp.float64)
+    fl = lambda a: jnp.asarray([[float(F(x)) for x in r] for r in a], dtype=jnp.float64)
     obs_dict = None
     if case.get("obs"):
         o = case["obs"]
@@ -594,12 +594,13 @@ def gen_weight(rng, ncomp, allow_vec=True):
 
 def gen_inside(rng, kind, d, n, distinct=True):
     n_in = {"ode": 1, "statio": d, "nonstatio": 1 + d}[kind]
-    rows, seen = [], set()
+    rows, seen, tries = [], set(), 0
     while len(rows) < n:
         r = [half(rng) for _ in range(n_in)]
         if kind != "statio":
             r[0] = Fr(rng.randint(0, 6), 2)
-        if distinct and tuple(r) in seen and len(seen) < 50:
+        tries += 1
+        if distinct and tuple(r) in seen and tries < 20 * n:
             continue
         seen.add(tuple(r))
         rows.append(r)
